@@ -82,12 +82,18 @@ def run(chk):
             cases.append((e, list(xs), None, k))
         cases.append(("symdel", list(xs), qs, k))
         cases.append(("nearest_neighbor", list(xs), qs, k))
+        # Hamming mode through every format too (sequences of several lengths: the matrix is still len(seqs) x len(seqs))
+        mixed = list(xs) + [xs[0][:-1] if len(xs[0]) > 1 else xs[0] + "A", xs[-1] + "C"]
+        for e in ENGINES:
+            cases.append((e + "@ham", mixed, None, k))
+        cases.append(("symdel@ham", mixed, qs, k))
     ops = []
     for e, xs, qs, k in cases:
+        mode = "ham" if e.endswith("@ham") else "lev"
         if qs is None:
-            ops.append({"op": "brute_self", "xs": xs, "k": k, "mode": "lev"})
+            ops.append({"op": "brute_self", "xs": xs, "k": k, "mode": mode})
         else:
-            ops.append({"op": "brute_cross", "ref": xs, "qs": qs, "k": k, "mode": "lev"})
+            ops.append({"op": "brute_cross", "ref": xs, "qs": qs, "k": k, "mode": mode})
     specs = core.run_driver_parallel(ops)
     dense_ops = []
     for (e, xs, qs, k), sp in zip(cases, specs):
@@ -100,11 +106,14 @@ def run(chk):
         kw = {"max_edits": k}
         if qs is not None:
             kw["seqs2"] = qs
+        if e.endswith("@ham"):
+            kw["custom_distance"] = "hamming"
+        fn_e = fns[e.split("@")[0]]
         want_dense = dm[1]
         spec_trip = core.canon_model_trips(sp[1])
         meta = {"engine": e, "xs": xs, "qs": qs, "k": k}
         for ot in ("triplets", "coo_matrix", "ndarray"):
-            st, val = core.call_real(lambda: fns[e](xs, output_type=ot, **kw))
+            st, val = core.call_real(lambda: fn_e(xs, output_type=ot, **kw))
             chk.case(sample={**meta, "output_type": ot} if len(chk.samples) < 4 else None,
                      nontrivial_key=(e, ot, str(xs), str(qs), k) if spec_trip else None)
             chk.count(f"format:{ot}")
